@@ -53,7 +53,7 @@ struct MemDrv {
         A a;
         unsigned char* c = reinterpret_cast<unsigned char*>(a.data());
         ++serial;
-        for (unsigned i = 0; i < N * W; ++i) c[i] = (unsigned char) (1 + ((i * 7 + serial * 13) % 120));
+        for (unsigned i = 0; i < N * W; ++i) c[i] = (unsigned char) (1 + ((i * 37 + serial * 13) % 251));   // every byte value, also >= 0x80 (sign extension bugs)
         return a;
     }
     static void fill_sentinels(unsigned char* p, std::size_t n) {
@@ -94,7 +94,7 @@ struct MemDrv {
                 pl.tail = 32;
                 pl.name = "start";
                 break;
-            default:  // inside the inaccessible page (only legal with k = 0)
+            default:  // inside the inaccessible page (only legal with k = 0); 64 is aligned for every vector
                 pl.p = mid_end() + 64;
                 pl.lead = 0;
                 pl.tail = 0;
@@ -159,10 +159,8 @@ struct MemDrv {
         for (int which = 0; which < 4; ++which) {
             one_load("load_ct", K, false, which, [](const S* p) { return avel::load<V, K>(p); });
             one_store("store_ct", K, false, which, [](S* p, V v) { avel::store<K>(p, v); });
-            if (which != 3) {
-                one_load("aligned_load_ct", K, true, which, [](const S* p) { return avel::aligned_load<V, K>(p); });
-                one_store("aligned_store_ct", K, true, which, [](S* p, V v) { avel::aligned_store<K>(p, v); });
-            }
+            one_load("aligned_load_ct", K, true, which, [](const S* p) { return avel::aligned_load<V, K>(p); });
+            one_store("aligned_store_ct", K, true, which, [](S* p, V v) { avel::aligned_store<K>(p, v); });
         }
         gs_ct<K>();
     }
@@ -300,10 +298,8 @@ struct MemDrv {
             for (int which = 0; which < 4; ++which) {
                 one_load("load_n", n, false, which, [n](const S* p) { return avel::load<V>(p, std::uint32_t(n)); });
                 one_store("store_n", n, false, which, [n](S* p, V v) { avel::store(p, v, std::uint32_t(n)); });
-                if (which != 3) {
-                    one_load("aligned_load_n", n, true, which, [n](const S* p) { return avel::aligned_load<V>(p, std::uint32_t(n)); });
-                    one_store("aligned_store_n", n, true, which, [n](S* p, V v) { avel::aligned_store(p, v, std::uint32_t(n)); });
-                }
+                one_load("aligned_load_n", n, true, which, [n](const S* p) { return avel::aligned_load<V>(p, std::uint32_t(n)); });
+                one_store("aligned_store_n", n, true, which, [n](S* p, V v) { avel::aligned_store(p, v, std::uint32_t(n)); });
             }
             gs_rt(n);
         }
